@@ -8,7 +8,8 @@ variants = [
   {name = "freespace", enforce = "Row_freespace", defines = ["H_FREESPACE"]},
   {name = "computeRows", enforce = "Circuit_computeRows", defines = ["H_COMPUTEROWS"], replace = ["Circuit_placement"]},
 ]
-assumptions = ["A(boost-rectangles): boost::polygon::get_rectangles(out, set) returns rectangles that lie inside the inserted rectangle, intersect no inserted hole, and for every column of the inserted rectangle that no hole touches one returned rectangle covers that column over the full height (instantiated at the loop index, a ghost obstacle and a ghost column)",
+assumptions = ["A(boost-rectangles): boost::polygon::get_rectangles(out, set) returns rectangles that lie inside the inserted rectangle, have no positive-area overlap with a subtracted hole, and for every column of the inserted rectangle that no subtracted hole touches one returned rectangle covers that column over the full height (instantiated at the loop index, at the hole subtracted for a ghost obstacle and at a ghost column); a flat or empty hole removes nothing",
+               "what the code must establish itself: every obstacle that overlaps the row is covered by a subtracted hole (or provably does not overlap), and a hole touches only columns its obstacle touches",
                "boost::polygon insert/rectangle_data/xl/xh/yl/yh are modelled by ghost records, so that the ARGUMENT ORDER at the call sites is part of what is verified",
                "pairwise disjointness of the returned segments is inherited from A(boost-rectangles) and not restated"]
 @*/
@@ -28,42 +29,57 @@ typedef struct { int xl, yl, xh, yh; } RectData;
 
 #ifdef H_FREESPACE
 int g_o;        /* ghost obstacle index */
-int g_x;        /* ghost column */
-int g_k;        /* A(boost): index of the returned rectangle that covers column g_x when no hole touches it */
-bool g_free;    /* ghost: no obstacle touches column g_x (given by the harness together with its meaning below) */
+int g_x;        /* ghost column [g_x, g_x + 1) */
+int g_k;        /* A(boost): index of the returned rectangle that covers column g_x when no subtracted hole touches it */
+bool g_free;    /* ghost: no obstacle touches column g_x inside the row (meaning instantiated at every obstacle below) */
 bool g_covered; /* ghost: a returned segment covers column g_x */
-int g_holes;    /* ghost: number of holes inserted so far */
+int g_holes;    /* ghost: number of holes subtracted so far */
+bool g_hole_touched;  /* ghost: some subtracted hole touches column g_x inside the row */
+bool g_hole_set; RectData g_hole;   /* ghost: the hole subtracted for obstacle g_o, if any */
 RectData g_base; bool g_base_set;
 Rectangle g_obst; /* snapshot of obstacle g_o */
-#define TOUCHES_COL(r, x) ((r).minX <= (x) && (x) < (r).maxX && (r).minY < g_rowmaxY && g_rowminY < (r).maxY)
-int g_rowminY, g_rowmaxY;
+int g_rowminX, g_rowmaxX, g_rowminY, g_rowmaxY;
+/* positive-area overlap (a flat or empty rectangle overlaps nothing; Rectangle::intersects is weaker) */
+#define OVERLAP(aminX, aminY, amaxX, amaxY, o) (std_max(aminX, (o).minX) < std_min(amaxX, (o).maxX) && std_max(aminY, (o).minY) < std_min(amaxY, (o).maxY))
+#define ROW_OVERLAPS(o) OVERLAP(g_rowminX, g_rowminY, g_rowmaxX, g_rowmaxY, o)
+/* a rectangle (xl, yl, xh, yh) touches column x of the row: it has positive-area overlap with [x, x+1) x [rowminY, rowmaxY) */
+#define TOUCHES_COL_R(xl, yl, xh, yh, x) ((xl) <= (x) && (x) < (xh) && std_max(yl, g_rowminY) < std_min(yh, g_rowmaxY))
+#define TOUCHES_COL(r, x) TOUCHES_COL_R((r).minX, (r).minY, (r).maxX, (r).maxY, x)
+/* the hole (a, b, c, d) removes all of obstacle o that lies inside the row */
+#define HOLE_COVERS(h, o) ((h).xl <= std_max((o).minX, g_rowminX) && (h).xh >= std_min((o).maxX, g_rowmaxX) && (h).yl <= std_max((o).minY, g_rowminY) && (h).yh >= std_min((o).maxY, g_rowmaxY))
+#define OBST_HANDLED ((g_hole_set && HOLE_COVERS(g_hole, g_obst)) || !ROW_OVERLAPS(g_obst))
 #define POLY_INSERT_BASE(a, b, c, d) do { __CPROVER_assert((a) == this->minX && (b) == this->minY && (c) == this->maxX && (d) == this->maxY, "spec: the region inserted into the polygon set is the row itself, as rectangle_data(xl, yl, xh, yh)"); g_base = RECTDATA(a, b, c, d); g_base_set = 1; } while (0)
-#define POLY_INSERT_HOLE(a, b, c, d) do { __CPROVER_assert((a) == r.minX && (b) == r.minY && (c) == r.maxX && (d) == r.maxY, "spec: every obstacle is subtracted as rectangle_data(xl, yl, xh, yh)"); g_holes++; } while (0)
+#define POLY_INSERT_HOLE(a, b, c, d) do { \
+   __CPROVER_assert(!TOUCHES_COL_R(a, b, c, d, g_x) || TOUCHES_COL(r, g_x), "spec C15: a subtracted hole removes only columns that its obstacle touches (no obstruction-free column is lost)"); \
+   if (TOUCHES_COL_R(a, b, c, d, g_x)) g_hole_touched = 1; \
+   if (_i_r == g_o) { g_hole = RECTDATA(a, b, c, d); g_hole_set = 1; } \
+   g_holes++; } while (0)
 RectData *verif_diff; int verif_diff_size;
 enum { BPL_DEFAULT, BPL_VERTICAL, BPL_HORIZONTAL };
-#define GET_RECTANGLES(orient) do { __CPROVER_assert((orient) != BPL_HORIZONTAL, "spec C15: the assumed contract of get_rectangles (full-height slabs over obstruction-free columns) holds for vertical slicing only"); __CPROVER_assert(g_base_set && g_holes == obstacles_size, "spec: the difference is taken after the row and ALL obstacles were inserted"); diff = verif_diff; diff_size = verif_diff_size; } while (0)
-/* A(boost-rectangles), instantiated at one returned rectangle d */
+#define GET_RECTANGLES(orient) do { __CPROVER_assert((orient) != BPL_HORIZONTAL, "spec C15: the assumed contract of get_rectangles (full-height slabs over hole-free columns) holds for vertical slicing only"); __CPROVER_assert(g_base_set, "spec: the difference is taken after the row was inserted"); \
+   __CPROVER_assume((!g_hole_touched && this->minX <= g_x && g_x < this->maxX) ==> (0 <= g_k && g_k < verif_diff_size && verif_diff[g_k].xl <= g_x && g_x < verif_diff[g_k].xh && verif_diff[g_k].yl == this->minY && verif_diff[g_k].yh == this->maxY)); /* A(boost-rectangles), coverage half */ \
+   diff = verif_diff; diff_size = verif_diff_size; } while (0)
+/* A(boost-rectangles), instantiated at one returned rectangle d: inside the base, proper, and without positive-area overlap with the hole subtracted for obstacle g_o */
+#define RD_OVERLAP(d, h) (std_max((d).xl, (h).xl) < std_min((d).xh, (h).xh) && std_max((d).yl, (h).yl) < std_min((d).yh, (h).yh))
 #define BOOST_RECT_OK(d) ((d).xl >= g_base.xl && (d).xh <= g_base.xh && (d).yl >= g_base.yl && (d).yh <= g_base.yh && (d).xl <= (d).xh && (d).yl <= (d).yh \
-   && !((d).xl < g_obst.maxX && g_obst.minX < (d).xh && (d).yl < g_obst.maxY && g_obst.minY < (d).yh))
+   && (!g_hole_set || !RD_OVERLAP(d, g_hole)))
 #define PUSH_ROW(newRow, orient) do { \
    __CPROVER_assert((newRow).minY == this->minY && (newRow).maxY == this->maxY, "spec C15: returned segments are full height"); \
    __CPROVER_assert((orient) == this->orientation, "spec C15: returned segments keep the row's orientation"); \
    __CPROVER_assert((newRow).minX >= this->minX && (newRow).maxX <= this->maxX, "spec C15: returned segments lie inside the row"); \
-   __CPROVER_assert(!Rectangle_intersects(newRow, g_obst), "spec C15: returned segments intersect no obstruction"); \
+   __CPROVER_assert(!OVERLAP((newRow).minX, (newRow).minY, (newRow).maxX, (newRow).maxY, g_obst), "spec C15: returned segments overlap no obstruction"); \
    if ((newRow).minX <= g_x && g_x < (newRow).maxX) g_covered = 1; ret_size++; } while (0)
 
 void Row_freespace(const Row *this, const Rectangle *obstacles, int obstacles_size)
 __CPROVER_requires(__CPROVER_is_fresh(this, sizeof(Row)) && 0 <= obstacles_size && obstacles_size <= NMAX && __CPROVER_is_fresh(obstacles, obstacles_size * sizeof(Rectangle)))
 __CPROVER_requires(0 <= verif_diff_size && verif_diff_size <= NMAX && __CPROVER_is_fresh(verif_diff, verif_diff_size * sizeof(RectData)))
 __CPROVER_requires(MAGV(this->minX) && MAGV(this->maxX) && MAGV(this->minY) && MAGV(this->maxY) && this->minX <= this->maxX && this->minY < this->maxY)
-__CPROVER_requires(g_holes == 0 && !g_base_set && !g_covered && g_rowminY == this->minY && g_rowmaxY == this->maxY)
+__CPROVER_requires(g_holes == 0 && !g_base_set && !g_covered && !g_hole_touched && !g_hole_set && g_rowminX == this->minX && g_rowmaxX == this->maxX && g_rowminY == this->minY && g_rowmaxY == this->maxY)
 __CPROVER_requires(obstacles_size == 0 || (0 <= g_o && g_o < obstacles_size && g_obst.minX == obstacles[g_o].minX && g_obst.maxX == obstacles[g_o].maxX && g_obst.minY == obstacles[g_o].minY && g_obst.maxY == obstacles[g_o].maxY))
 __CPROVER_requires(obstacles_size > 0 || (g_obst.minX == 0 && g_obst.maxX == 0 && g_obst.minY == 0 && g_obst.maxY == 0))
-/* A(boost-rectangles), coverage half: if no hole touches column g_x of the row, returned rectangle g_k covers it at full height */
-__CPROVER_requires((g_free && this->minX <= g_x && g_x < this->maxX) ==> (0 <= g_k && g_k < verif_diff_size && verif_diff[g_k].xl <= g_x && g_x < verif_diff[g_k].xh && verif_diff[g_k].yl == this->minY && verif_diff[g_k].yh == this->maxY))
 /* C15: together the returned segments cover every obstruction-free column of the row */
 __CPROVER_ensures((g_free && this->minX <= g_x && g_x < this->maxX) ==> g_covered)
-__CPROVER_assigns(g_base, g_base_set, g_holes, g_covered)
+__CPROVER_assigns(g_base, g_base_set, g_holes, g_covered, g_hole_touched, g_hole_set, g_hole)
 /*@extract
 file = "src/coloquinte.cpp"
 head = 'std::vector<Row> Row::freespace\(const std::vector<Rectangle> &obstacles\) const'
@@ -78,27 +94,31 @@ rewrites = [['row_set\.insert\(bpl::rectangle_data<int>\(([^;]*?)\),\s*true\);',
             ['Rectangle newRow\(([^;]*)\);', 'Rectangle newRow = Rectangle(\1);', '1'],
             ['bpl::(xl|xh|yl|yh)\(', 'bpl_\1(', '4+'],
             ['\b(\w+)\.(height|width)\(\)', 'Rectangle_\2(\1)', '*'], ['(?<![\w.])(height|width)\(\)', 'Rectangle_\1(*this)', '*'],
+            ['(?<![\w.>])(intersects|contains)\(', 'Rectangle_\1(*this, ', '*'], ['\b(\w+)\.(intersects|contains)\(', 'Rectangle_\2(\1, ', '*'],
             ['ret\.emplace_back\(newRow, orientation\);', 'PUSH_ROW(newRow, orientation);', '1'],
             ['(?<![\w.>])(minX|maxX|minY|maxY|orientation)\b(?!\s*\()', 'this->\1', '4+'],
             ['return ret;', 'return;', '1']]
 [[loops]]
 ordinal = 1
-contract = '''
-__CPROVER_assigns(_i_r, g_holes)
-__CPROVER_loop_invariant(0 <= _i_r && _i_r <= obstacles_size && g_holes == _i_r)
+contract = """
+__CPROVER_assigns(_i_r, g_holes, g_hole_touched, g_hole_set, g_hole)
+__CPROVER_loop_invariant(0 <= _i_r && _i_r <= obstacles_size && 0 <= g_holes && g_holes <= _i_r && (g_free ==> !g_hole_touched) && (g_o >= _i_r ==> !g_hole_set) && ((obstacles_size > 0 && g_o < _i_r) ==> OBST_HANDLED))
 __CPROVER_decreases(obstacles_size - _i_r)
-'''
+"""
 [[loops]]
 ordinal = 2
-contract = '''
+contract = """
 __CPROVER_assigns(_i_r, ret_size, g_covered)
 __CPROVER_loop_invariant(0 <= _i_r && _i_r <= diff_size && 0 <= ret_size && ret_size <= _i_r)
 __CPROVER_loop_invariant((g_free && this->minX <= g_x && g_x < this->maxX && g_k < _i_r) ==> g_covered)
 __CPROVER_decreases(diff_size - _i_r)
-'''
+"""
+[[ghosts]]
+after = 'Rectangle r = obstacles\[_i_r\];'
+text = """__CPROVER_assume(MAGV(r.minX) && MAGV(r.maxX) && MAGV(r.minY) && MAGV(r.maxY) && (g_free ==> !TOUCHES_COL(r, g_x))); /* INSTANTIATE the meaning of g_free (no obstacle touches column g_x) and MAG at the loop index */"""
 [[ghosts]]
 after = 'RectData r = diff\[_i_r\];'
-text = '''__CPROVER_assume(BOOST_RECT_OK(r)); /* INSTANTIATE A(boost-rectangles) at the loop index */'''
+text = """__CPROVER_assume(BOOST_RECT_OK(r)); /* INSTANTIATE A(boost-rectangles) at the loop index */"""
 @*/
 #endif
 
